@@ -38,7 +38,14 @@ RULE = ("op cov: synthetic coordinate-sorted BAM (1-3 contigs incl. names whose 
         "row within 1e-5 (clause cli_written_file_is_the_table); bare `-p` not generated (proposed_fixes/"
         "C09-cli-processes-bare.md); exhaustive small scope: every read [a,b) within 0..6 against every bin [s,e) "
         "within 0..7. op chunks: to_chunks on 0..40 raw lines with comments, sizes 1..8 and 4999..10001 lines at the "
-        "default size. non-trivial = valid input with a bin of positive depth; distinct by hash")
+        "default size. op covsched (round 4): 2-3 contigs x 6-14 distinct BED lines x 20-120 reads, runs pileup / count "
+        "with 2-4 processes and chunk sizes 1..n/2 where the worker functions (_bedcov, _rdc) are delayed per task so "
+        "that the REAL pool finishes in reverse / a random / its natural order; every worker logs take and finish; "
+        "the observed event list is replayed through the small-step pool model and the model's table must be the "
+        "real one (clause same_table_any_worker_schedule + the clauses of op cov). tag cigar-rich: reads with 2-6 "
+        "aligned blocks separated by I / D / N / P, two of them in a row, insertion after the leading clip, H+S at "
+        "both ends. non-trivial = valid input with a bin of positive depth (covsched: a pool run in which at least "
+        "two tasks finished); distinct by hash")
 EXHAUSTIVE = {"quick": False, "thorough": False}
 ASSUMPTIONS = [
     "regions file lines are records or '#' comments (what to_chunks recognises); every record has the same number "
@@ -49,7 +56,11 @@ ASSUMPTIONS = [
     ">= 6 columns (a 5-column BED whose 4th field is one of . + - is read by --count as a Picard interval list)",
     "BAM input only (no CRAM); the fasta argument names a FASTA of the contigs and is irrelevant to the result",
     "worker schedules: model = Executor.map returns results in submission order for every completion order "
-    "(proved for every permutation in the model; the real pool is exercised with 1,2,3,16 processes)",
+    "(proved for every permutation in the model; the real pool is exercised with 1,2,3,16 processes); round 4: a "
+    "small-step pool (workers take any waiting task, finish in any interleaving, results stored by submission "
+    "index) with theorems over every event list, exercised by replaying the event lists observed in the real pool "
+    "under forced completion orders; that concurrent.futures stores each result in the future of its submission "
+    "and that Executor.map reads the futures in order remains a contract",
     "log2 itself is checked as 2**log2 == depth to 1e-9 (math.log / np.log2 are third-party numerics)",
     "pileup depth with deletions / ref-skips follows the samtools-bedcov contract (deleted and skipped reference "
     "positions count as covered); the property claims equality of the algorithms only without indels",
